@@ -208,7 +208,10 @@ class Gen:
                      'stabilization/1.0.1', 'hotfix/0.9.0',
                      'development/1.0', 'development/2.0']
             cands = [c for c in cands if c not in heads] or cands
-            self.run('create_branch', self.rng.choice(cands))
+            kw = {}
+            if self.rng.random() < 0.4 and self.dests():
+                kw['branch_from'] = 'tip:' + self.rng.choice(self.dests())
+            self.run('create_branch', self.rng.choice(cands), **kw)
         elif kind == 'delete_branch':
             d = self.dests()
             if d:
@@ -366,10 +369,83 @@ class Gen:
             steps += 1
             self.step()
 
+    def op_backport(self):
+        """a branch forked from the oldest destination is merged into a later
+        destination first, the oldest destination then moves, and the same
+        branch is finally proposed on the oldest destination (backport)"""
+        dests = [d for d in self.dests() if not d.startswith('hotfix/')]
+        if len(dests) < 2:
+            return self.op_two_prs_same_base()
+        old, later = dests[0], self.rng.choice(dests[1:])
+        self.n += 1
+        src = 'bugfix/TEST-%d-backport' % self.n
+        pr = self.w.do('open_pr', src=src, dst=later, base=old)
+        a = {'id': pr, 'src': src, 'dst': later}
+        self.prs.append(a)
+        self.run('pr', pr)
+        self.m_forward(a, 4)
+        c = self.new_pr(old)
+        self.m_forward(c, 4)
+        prb = self.w.do('open_pr', src=src, dst=old, reuse=True)
+        b = {'id': prb, 'src': src, 'dst': old}
+        self.prs.append(b)
+        self.run('pr', prb)
+        self.m_forward(b, 4)
+
+    def op_partial_merge(self):
+        """a PR gets a new commit after it entered the queue, then the queue
+        is merged (partial merge), then it is evaluated again"""
+        dests = self.dests()
+        a = self.new_pr(self.rng.choice(dests))
+        for _ in range(3):
+            rec = self.run('pr', a['id'])
+            if rec['status'] == 'Queued':
+                break
+            for t in self.interesting_tips(a):
+                if not t.startswith('tip:q/'):
+                    self.w.do('set_status', ref=t, state='SUCCESSFUL')
+        if a['src'] in self.w.refs()[0]:
+            self.w.do('push_commit', branch=a['src'])
+        heads = self.w.refs()[0]
+        qw = [b for b in sorted(heads) if b.startswith('q/')]
+        for b in qw:
+            self.w.do('set_status', ref='tip:' + b, state='SUCCESSFUL')
+        if qw:
+            self.run('commit', 'tip:' + qw[-1])
+
+    def op_dependency_then_other(self):
+        """one PR waits for another (after_pull_request), is evaluated, and
+        an unrelated PR is opened afterwards"""
+        dests = self.dests()
+        a = self.new_pr(self.rng.choice(dests))
+        b = self.new_pr(self.rng.choice(dests), evaluate=False)
+        self.w.do('comment', pr=b['id'], user=AUTHOR,
+                  text='/after_pull_request=%d' % a['id'])
+        self.run('pr', b['id'])
+        self.new_pr(self.rng.choice(dests), evaluate=False)
+
+    def op_admin_branches(self):
+        """create-branch requests with explicit branching points (older than /
+        between / newer than the existing branches), then a PR"""
+        dests = [d for d in self.dests() if not d.startswith('hotfix/')]
+        a = self.new_pr(dests[0])
+        self.m_forward(a, 3)
+        for name in self.rng.sample(['development/0.5', 'development/1.5',
+                                     'development/7.0', 'development/0.8',
+                                     'stabilization/2.0.0'], 3):
+            kw = {}
+            if self.rng.random() < 0.8:
+                kw['branch_from'] = 'tip:' + self.rng.choice(self.dests())
+            self.run('create_branch', name, **kw)
+
 
 OPENERS = {
     'two_prs_same_base': Gen.op_two_prs_same_base,
     'stab_between_devs': Gen.op_stab_between_devs,
     'three_queued': Gen.op_three_queued,
     'dest_moves_while_open': Gen.op_dest_moves_while_open,
+    'backport': Gen.op_backport,
+    'admin_branches': Gen.op_admin_branches,
+    'partial_merge': Gen.op_partial_merge,
+    'dependency_then_other': Gen.op_dependency_then_other,
 }
